@@ -31,6 +31,9 @@ type C11Scenario struct {
 	DeadPrimary bool `json:"dead_primary"`
 	// NoFlagsAPI: the simulated servers do not implement /api/v1/status/flags
 	NoFlagsAPI bool `json:"no_flags_api"`
+	// SlowMs: every answer of the (single) server takes this long and the configured timeout is 2s: slow but
+	// healthy, each request on its own is well inside the timeout however many of them are waiting for a slot
+	SlowMs int `json:"slow_ms,omitempty"`
 }
 
 // rule palette: every entry is built to draw at least one problem from some check
@@ -104,14 +107,18 @@ func drawRuleFileC(rt *rapid.T, strict, withComments bool) string {
 }
 
 func c11Config(variant, servers int, deadPrimary bool) string {
+	return c11ConfigT(variant, servers, deadPrimary, "30s")
+}
+
+func c11ConfigT(variant, servers int, deadPrimary bool, timeout string) string {
 	var sb strings.Builder
 	sb.WriteString("parser {\n  relaxed = [\"relaxed/.*\"]\n}\n")
 	for i := 0; i < servers; i++ {
 		if deadPrimary {
-			fmt.Fprintf(&sb, "prometheus \"prom%c\" {\n  uri = \"http://dead%d:9090\"\n  failover = [\"http://prom%d:9090\"]\n  timeout = \"30s\"\n  rateLimit = 2000000000\n  concurrency = %d\n}\n", 'a'+i, i, i, 2+i*6)
+			fmt.Fprintf(&sb, "prometheus \"prom%c\" {\n  uri = \"http://dead%d:9090\"\n  failover = [\"http://prom%d:9090\"]\n  timeout = \"%s\"\n  rateLimit = 2000000000\n  concurrency = %d\n}\n", 'a'+i, i, i, timeout, 2+i*6)
 			continue
 		}
-		fmt.Fprintf(&sb, "prometheus \"prom%c\" {\n  uri = \"http://prom%d:9090\"\n  timeout = \"30s\"\n  rateLimit = 2000000000\n  concurrency = %d\n}\n", 'a'+i, i, 2+i*6)
+		fmt.Fprintf(&sb, "prometheus \"prom%c\" {\n  uri = \"http://prom%d:9090\"\n  timeout = \"%s\"\n  rateLimit = 2000000000\n  concurrency = %d\n}\n", 'a'+i, i, timeout, 2+i*6)
 	}
 	if variant >= 1 {
 		sb.WriteString("rule {\n  match { kind = \"alerting\" }\n  label \"severity\" {\n    required = true\n    severity = \"bug\"\n  }\n  annotation \"summary\" {\n    required = true\n    severity = \"warning\"\n  }\n}\n")
@@ -151,7 +158,12 @@ func drawC11(rt *rapid.T) C11Scenario {
 	}
 	sc.DeadPrimary = sc.Servers > 0 && rapid.IntRange(0, 2).Draw(rt, "deadprimary") == 0
 	sc.NoFlagsAPI = sc.Servers > 0 && rapid.IntRange(0, 2).Draw(rt, "noflags") == 0
-	sc.Files = append(sc.Files, simFile{Path: ".pint.hcl", Content: c11Config(sc.ConfigVar, sc.Servers, sc.DeadPrimary)})
+	timeout := "30s"
+	if sc.Servers == 1 && rapid.IntRange(0, 3).Draw(rt, "slow") == 0 {
+		sc.SlowMs = []int{150, 300, 450}[rapid.IntRange(0, 2).Draw(rt, "slowms")]
+		timeout = "2s"
+	}
+	sc.Files = append(sc.Files, simFile{Path: ".pint.hcl", Content: c11ConfigT(sc.ConfigVar, sc.Servers, sc.DeadPrimary, timeout)})
 	return sc
 }
 
@@ -177,7 +189,7 @@ func c11Env(sc *C11Scenario, workers int, sched detsim.SchedConfig) simEnv {
 		env.Files = append(env.Files, simFile{Path: "rules/.keep", Content: ""})
 	}
 	for i := 0; i < sc.Servers; i++ {
-		env.Servers = append(env.Servers, simServer{Host: fmt.Sprintf("prom%d:9090", i), DB: standardDB, NoFlagsAPI: sc.NoFlagsAPI})
+		env.Servers = append(env.Servers, simServer{Host: fmt.Sprintf("prom%d:9090", i), DB: standardDB, NoFlagsAPI: sc.NoFlagsAPI, DelayMs: sc.SlowMs})
 	}
 	return env
 }
@@ -211,6 +223,9 @@ func runC11(t *testing.T, sc C11Scenario, record bool) *detsim.Outcome {
 	}
 	if sc.DeadPrimary {
 		out.Probes["runs_with_failover"]++
+	}
+	if sc.SlowMs > 0 {
+		out.Probes["runs_with_slow_server"]++
 	}
 	// the schedule under test, three times with the same tape: map iteration order is the one
 	// source of nondeterminism no seam can pin, a disagreement among same-tape runs is a violation too
@@ -284,7 +299,18 @@ func TestC11Race(t *testing.T) {
 		env := c11Env(sc, workers, detsim.SchedConfig{Free: true})
 		env.StartAt = 0
 		env.NoBubble = true
-		return runPint(t, env, false)
+		for i := range env.Servers {
+			if env.Servers[i].DelayMs > 3 {
+				env.Servers[i].DelayMs = 3 // real time here: keep "slow" short enough for hundreds of requests
+			}
+		}
+		r := runPint(t, env, false)
+		if !r.Live {
+			// nothing after this is meaningful in this process (registries, leaked goroutines)
+			fmt.Printf("uncontrolled run with --workers %d did not finish within 2 minutes of real time\n", workers)
+			os.Exit(3)
+		}
+		return r
 	}
 	if f := os.Getenv("VERIF_REPLAY"); f != "" {
 		b, err := os.ReadFile(f)
